@@ -4,12 +4,12 @@ set -u
 P=$1; shift
 cd /verif
 if ! git -C /repo diff --quiet; then echo "/repo not clean"; exit 2; fi
-git -C /repo apply /tmp/seed-$P-out/patch.diff || { echo "patch does not apply"; exit 2; }
+git -C /repo apply /tmp/${SEEDPFX:-seed}-$P-out/patch.diff || { echo "patch does not apply"; exit 2; }
 start=$(date +%s)
-./check $P --tier quick "$@" > /tmp/seed-$P-out/check_quick.log 2>&1
+./check $P --tier quick "$@" > /tmp/${SEEDPFX:-seed}-$P-out/check_quick.log 2>&1
 rc=$?
 end=$(date +%s)
 git -C /repo checkout -- .
 echo "seed $P: check exit=$rc wall=$((end-start))s"
-grep -E "^VIOLATION|reason:" /tmp/seed-$P-out/check_quick.log | cut -c1-260 | head -6
+grep -E "^VIOLATION|reason:" /tmp/${SEEDPFX:-seed}-$P-out/check_quick.log | cut -c1-260 | head -6
 rm -rf /verif/replays/$P/new
